@@ -26,6 +26,7 @@ pub fn run(tier: Tier) -> i32 {
                 p.xml_lang = 1;
                 // the same local name in several namespaces: an (unprefixed) base must still be the own one
                 p.collide = true;
+                p.seq_in_choice = true;
                 p.colliding_abbrev = true;
             },
             only: Some(&derived),
